@@ -103,6 +103,8 @@ def check(run):
         crules.next_rules(run, "C07-x1", r[1], ast)
         crules.hash_rules(run, "C07-x2", "C07-x3", r[1], "C07-x4", "C07-x5", ast)
         install_rule(run, r[1], ast)
+        from . import c09
+        c09.table_writer_overwrites(run, ast, r[1])
         crules.deferred_rules(run, r[2], None, None, ast)
         crules.list_rules(run, r[3], r[3], r[3], r[3], ast)
     run.violations = [v for v in run.violations if not re.match(r"C07-x\d", v["rule"])]
